@@ -178,6 +178,7 @@ def build_generated(args):
     prop, cid, src, seed, queries = args
     rng = random.Random(seed)
     cz = decio.Concretiser(rng, readable=True, vocab=f"q/{cid // 64}" if isinstance(cid, int) and cid % 2 == 1 else None)
+    cz.related = isinstance(cid, int) and cid % 4 == 2          # one file in four: names that are spellings of each other
     text = decio.render_file(cz, src)
     p, err, _ = decio.parse_text(text)
     if p is None:
